@@ -1090,7 +1090,9 @@ REGION_BASE = 0x500000000
 
 
 def gen_program(rng, opts=None):
-    o = dict(nfuncs=rng.choice([1, 2, 2, 3, 4]), fuel=rng.choice([6, 12, 25]), alloca=True, labbase=0)
+    o = dict(nfuncs=rng.choice([1, 2, 2, 3, 4]), fuel=rng.choice([6, 12, 25]), alloca=True, labbase=0,
+             # per-function probabilities of the CFG streams that used to be off (see design/C01.md)
+             p_irreducible=0.15, p_jmpi=0.2, p_cold=0.15, p_laddr_any=0.05, p_constbr=0.15)
     if opts: o.update(opts)
     p = Program()
     # regions: two writable, one read-only
